@@ -64,6 +64,7 @@ class Parser:
         self.branches = []
         self.rings = {}
         self.bond_order = None
+        self.bond_is_implicit = True
         self.is_its = False
 
     def __set_bond_order(self, value):
@@ -103,12 +104,13 @@ class Parser:
         self.graph.add_node(idx, **node_attributes)
         if self.anchor is not None:
             anchor_sym = self.graph.nodes[self.anchor][SYMBOL_KEY]
-            if self.bond_order == 1 and anchor_sym.islower() and value.islower():
+            if self.bond_is_implicit and anchor_sym.islower() and value.islower():
                 self.__set_bond_order(1.5)
             if self.bond_order != 0:
                 edge_attributes = {BOND_KEY: self.bond_order}
                 self.graph.add_edge(self.anchor, idx, **edge_attributes)
             self.__set_bond_order(1)
+            self.bond_is_implicit = True
         self.anchor = idx
 
     def __process_token_rc_bond(self, value):
@@ -126,12 +128,18 @@ class Parser:
         if value in self.rings.keys():
             anchor_sym = self.graph.nodes[self.anchor][SYMBOL_KEY]
             ring_anchor = self.rings[value]
-            if anchor_sym.islower():
+            ring_anchor_sym = self.graph.nodes[ring_anchor][SYMBOL_KEY]
+            if (
+                self.bond_is_implicit
+                and anchor_sym.islower()
+                and ring_anchor_sym.islower()
+            ):
                 self.__set_bond_order(1.5)
             if self.bond_order != 0:
                 edge_attributes = {BOND_KEY: self.bond_order}
                 self.graph.add_edge(self.anchor, ring_anchor, **edge_attributes)
             self.__set_bond_order(1)
+            self.bond_is_implicit = True
             del self.rings[value]
         else:
             if self.anchor is None:
@@ -143,8 +151,10 @@ class Parser:
             self.__process_token_add_node(ttype, value, idx)
         elif ttype == "BOND":
             self.__set_bond_order(self.bond_to_order_map[value])
+            self.bond_is_implicit = False
         elif ttype == "RC_BOND":
             self.__process_token_rc_bond(value)
+            self.bond_is_implicit = False
         elif ttype == "BRANCH_START":
             self.branches.append(self.anchor)
         elif ttype == "BRANCH_END":
